@@ -24,8 +24,12 @@ Docs == UNION {[S -> FormSet] : S \in {T \in SUBSET PosSet : Cardinality(T) <= M
 \* compression method, spelling of the relationship target, case of the part name in the zip,
 \* presence of the optional styles part (sharedStrings is dropped only when no cell needs it)
 DefaultPkg == [prefix |-> "", deflate |-> FALSE, target |-> "rel", case |-> "exact", styles |-> TRUE, sst |-> TRUE]
-PkgSet == IF ~PkgVary THEN {DefaultPkg}
-          ELSE [prefix : {"", "x"}, deflate : BOOLEAN, target : {"rel", "abs"},
+\* PkgVary: "none" = default package only, "prefix" = default and prefixed (combined with every
+\* position encoding), "all" = full product.  Target spellings: relative ("worksheets/.."),
+\* absolute ("/xl/worksheets/..") and the tolerated "xl/worksheets/.." some writers emit.
+PkgSet == IF PkgVary = "none" THEN {DefaultPkg}
+          ELSE IF PkgVary = "prefix" THEN {DefaultPkg, [DefaultPkg EXCEPT !.prefix = "x"]}
+          ELSE [prefix : {"", "x"}, deflate : BOOLEAN, target : {"rel", "abs", "xlrel"},
                 case : {"exact", "upper", "mixed"}, styles : BOOLEAN, sst : BOOLEAN]
 NeedsSst(d) == \E p \in DOMAIN d : FormDef(d[p]).t = "s"
 NeedsStyles(d) == \E p \in DOMAIN d : FormDef(d[p]).s # None
@@ -36,7 +40,8 @@ Lower(path) == CASE path = "XL/WORKSHEETS/SHEET1.XML" -> "xl/worksheets/sheet1.x
                  [] OTHER -> path
 ZipName(c) == CASE c = "upper" -> "XL/WORKSHEETS/SHEET1.XML" [] c = "mixed" -> "xl/Worksheets/Sheet1.xml"
                 [] OTHER -> "xl/worksheets/sheet1.xml"
-TargetText(t) == IF t = "abs" THEN "/xl/worksheets/sheet1.xml" ELSE "worksheets/sheet1.xml"
+TargetText(t) == CASE t = "abs" -> "/xl/worksheets/sheet1.xml" [] t = "xlrel" -> "xl/worksheets/sheet1.xml"
+                  [] OTHER -> "worksheets/sheet1.xml"
 ResolvedPath(t) == "xl/worksheets/sheet1.xml"     \* "/xl/.." loses its slash, a relative target gains "xl/"
 PartFound == Lower(ZipName(pkg.case)) = Lower(ResolvedPath(pkg.target))
 
